@@ -686,3 +686,170 @@ func runPATHINDEX(c *Ctx) {
 		c.AnchorMissing("indexing by a path entry's position in the Cursor methods")
 	}
 }
+
+// ---- ENTRYINV -------------------------------------------------------------------------
+//
+// PATHINDEX relies on the invariant linkIndex ≤ len(node.Key) of every path entry. ENTRYINV checks the writers.
+
+func init() {
+	Register(&Rule{
+		ID:    "ENTRYINV",
+		Props: []string{"C10"},
+		Min:   6,
+		Doc: "every position written into a path entry by the Cursor code is at most len(node.Key) (= len(Link)-1): the constant 0; len(Link)-1, len(Key), len(Value) or one of these minus a constant; the result of sort.Search over at most len(Key) positions; the old position +1 under a test that position+1 is below len(Link) (or the position below len(Key)); the old position −k; or a φ of such values. Any other constant needs a test that the node has that many keys.",
+		Run: runENTRYINV,
+	})
+}
+
+func runENTRYINV(c *Ctx) {
+	P := c.P
+	n := 0
+	var okVal func(v ssa.Value, at ssa.Instruction, seen map[ssa.Value]bool) (bool, string)
+	okVal = func(v ssa.Value, at ssa.Instruction, seen map[ssa.Value]bool) (bool, string) {
+		v = ir.ResolveCell(v)
+		if seen[v] {
+			return true, "loop"
+		}
+		seen[v] = true
+		if k, isK := ir.ConstInt(v); isK {
+			if k == 0 {
+				return true, "0"
+			}
+			return false, fmt.Sprintf("the constant %d (a node may have fewer keys)", k)
+		}
+		switch x := v.(type) {
+		case *ssa.Phi:
+			for _, e := range x.Edges {
+				if ok, why := okVal(e, at, seen); !ok {
+					return false, why
+				}
+			}
+			return true, "φ"
+		case *ssa.Extract:
+			if call, ok := x.Tuple.(*ssa.Call); ok {
+				if sc := ir.Callee(call.Call); sc != nil && isOwn(P, sc) {
+					return true, "position returned by " + sc.Name() // findNode / search helpers: checked where they store
+				}
+			}
+		case *ssa.Call:
+			if sc := ir.Callee(x.Call); sc != nil && sc.String() == "sort.Search" {
+				if atMostALength(x.Call.Args[0], map[ssa.Value]bool{}) {
+					return true, "sort.Search over at most a length"
+				}
+				return false, "sort.Search over a range that is not known to be within the keys"
+			}
+			if b, ok := x.Call.Value.(*ssa.Builtin); ok && b.Name() == "len" {
+				if _, f, ok := nodeSliceRoot(x.Call.Args[0]); ok && (f == "Key" || f == "Value") {
+					return true, "len(" + f + ")"
+				}
+				return false, "a length that is not the number of keys"
+			}
+		case *ssa.BinOp:
+			k, isK := ir.ConstInt(x.Y)
+			if !isK {
+				break
+			}
+			if x.Op == token.SUB && k >= 0 {
+				// len(Link)-1, len(Key)-k, position-k
+				if lc, ok := ir.ResolveCell(x.X).(*ssa.Call); ok {
+					if b, ok := lc.Call.Value.(*ssa.Builtin); ok && b.Name() == "len" {
+						if _, f, ok := nodeSliceRoot(lc.Call.Args[0]); ok {
+							if f == "Link" && k >= 1 || f != "Link" {
+								return true, "a length minus a constant"
+							}
+							return false, "len(Link) itself (one more than the number of keys)"
+						}
+					}
+				}
+				if _, _, ok := liPlusK(x.X); ok {
+					return true, "the old position minus a constant"
+				}
+				return okVal(x.X, at, seen)
+			}
+			if x.Op == token.ADD && k >= 1 {
+				if li, k0, ok := liPlusK(x.X); ok {
+					// position + k ≤ len(Key)  ⇔  position + k < len(Link)
+					liSym := ir.Sym(li)
+					tot := k0 + k
+					ok := ir.FlowFact(at, func(fc ir.Fact) bool {
+						bin, isB := fc.Cond.(*ssa.BinOp)
+						if !isB {
+							return false
+						}
+						l2, a, ok := liPlusK(bin.X)
+						if !ok || ir.Sym(l2) != liSym {
+							return false
+						}
+						_, dF, ok := lenOfNodeSlice(bin.Y)
+						if !ok {
+							return false
+						}
+						op := bin.Op
+						if !fc.Truth {
+							switch op {
+							case token.GEQ:
+								op = token.LSS
+							case token.GTR:
+								op = token.LEQ
+							case token.EQL:
+								op = token.NEQ
+							default:
+								return false
+							}
+						}
+						// li + a < n + dF  ⇒ li ≤ n + dF − a − 1 ; need li + tot ≤ n
+						switch op {
+						case token.LSS:
+							return dF-a-1+tot <= 0
+						case token.LEQ:
+							return dF-a+tot <= 0
+						case token.NEQ:
+							return dF-a == 0 && tot <= 1 // li ≠ n with li ≤ n ⇒ li ≤ n−1
+						}
+						return false
+					}, func(i ssa.Instruction) bool {
+						st, ok := i.(*ssa.Store)
+						return ok && strings.HasSuffix(ir.Sym(st.Addr), ".linkIndex")
+					})
+					if ok {
+						return true, "the old position plus a constant, tested against the node's length"
+					}
+					return false, "the old position advanced without a test against the node's length"
+				}
+			}
+		}
+		return false, "a value of unrecognised form (" + pathDesc(ir.Sym(v)) + ")"
+	}
+	for _, fn := range P.Funcs {
+		if fn.Pkg.Pkg.Path() != ir.MastPath || fn.Signature.Recv() == nil || !ir.IsPtrToNamed(fn.Signature.Recv().Type(), "Cursor") || fn.Name() == "String" {
+			continue
+		}
+		for _, b := range fn.Blocks {
+			if ir.IsDead(b) {
+				continue
+			}
+			for _, ins := range b.Instrs {
+				st, ok := ins.(*ssa.Store)
+				if !ok {
+					continue
+				}
+				fa, ok := st.Addr.(*ssa.FieldAddr)
+				if !ok || ir.FieldName(fa.X.Type(), fa.Field) != "linkIndex" {
+					continue
+				}
+				n++
+				pos := P.InstrPos(st)
+				what := fmt.Sprintf("position %s stored into a path entry in %s", pathDesc(ir.Sym(st.Val)), ir.FuncName(fn))
+				if ok, why := okVal(st.Val, st, map[ssa.Value]bool{}); ok {
+					c.OK(pos, what, "at most the number of keys: "+why, false)
+				} else {
+					c.Violation(fn, pos, "path entry position may exceed the number of keys",
+						"the stored position is "+why+": an entry past the slot after the last key makes the next Get/Forward/Backward index out of range (e.g. Max on an entry-less root, then Backward)")
+				}
+			}
+		}
+	}
+	if n == 0 {
+		c.AnchorMissing("stores of a path entry's position in the Cursor methods")
+	}
+}
